@@ -194,8 +194,8 @@ CHECKS = {
           "_ret_bool/_ret_number/null-object handling; byte-string text is decoded before validation, the decode being an "
           "observed table). Refusal of unrelated xsi:type is proved, and the pre-repair code and MessagePack ByteArray are "
           "refuted on witnesses. Observed only: HttpRpc, SOAP envelopes and headers, validator=lxml, rich leaf types. Three "
-          "defects repaired here, the null-object one by the C05 repair; findings: MessagePack ByteArray receives arbitrary "
-          "values, SOAP headers are not schema-validated under validator=lxml.",
+          "defects repaired here, the null-object one by the C05 repair; findings: MessagePack ByteArray given a str "
+          "receives a tuple of str (other kinds are refused), SOAP headers are not schema-validated under validator=lxml.",
   'technique': 'Coq proof (typing judgement, induction on fuel) over Gallina models of the XML and dict deserialisers + fail-closed ast translators (xsitype, dictleaf) + vm_compute correspondence + isinstance/value-space oracle with an exhaustive xsi:type retag battery',
  },
  'C16': {
